@@ -131,8 +131,7 @@ func (h *Handler) modifyResponse(r *http.Response) error {
 	}
 
 	// Update it.
-	csp := r.Header.Get("Content-Security-Policy")
-	updated, err := insertScriptTagIntoBody(parseNonce(csp), string(body))
+	updated, err := insertScriptTagIntoBody(scriptNonce(r.Header), string(body))
 	if err != nil {
 		log.Warn("Unable to insert reload script", slog.Any("error", err))
 		updated = string(body)
@@ -160,6 +159,19 @@ func (h *Handler) modifyResponse(r *http.Response) error {
 	r.ContentLength = int64(buf.Len())
 	r.Header.Set("Content-Length", strconv.Itoa(buf.Len()))
 	return nil
+}
+
+// scriptNonce returns the first script-src nonce of the response's policies. A response can carry several
+// Content-Security-Policy header lines and each line is a comma-separated list of policies.
+func scriptNonce(h http.Header) (nonce string) {
+	for _, line := range h.Values("Content-Security-Policy") {
+		for _, policy := range strings.Split(line, ",") {
+			if nonce = parseNonce(policy); nonce != "" {
+				return nonce
+			}
+		}
+	}
+	return ""
 }
 
 func parseNonce(csp string) (nonce string) {
